@@ -223,6 +223,10 @@ func (c *colCounter) Reset(w io.Writer) {
 // Printer holds the internal state of the printing mechanism of a
 // program.
 type Printer struct {
+	// inLet is set while printing the expressions of a let clause, which
+	// are separate words and so cannot hold spaces.
+	inLet bool
+
 	w         bufWriter
 	tabWriter *tabwriter.Writer
 	cols      colCounter // used for [KeepPadding]
@@ -961,7 +965,7 @@ func (p *Printer) arithmExprRecurse(expr ArithmExpr, compact, spacePlusMinus boo
 		if compact {
 			p.arithmExprRecurse(expr.X, compact, spacePlusMinus)
 			p.w.WriteString(expr.Op.String())
-			if (expr.Op == Add || expr.Op == Sub) && arithmStartsWithSign(expr.Y) {
+			if !p.inLet && (expr.Op == Add || expr.Op == Sub) && arithmStartsWithSign(expr.Y) {
 				// "x - -y" must not become "x--y", nor "x + ++y" "x+++y"
 				p.space()
 			}
@@ -991,7 +995,7 @@ func (p *Printer) arithmExprRecurse(expr ArithmExpr, compact, spacePlusMinus boo
 				// "!" followed by a word triggers history expansion
 				// in interactive shells; a space prevents that.
 				p.space()
-			} else if (expr.Op == Plus || expr.Op == Minus) && arithmStartsWithSign(expr.X) {
+			} else if !p.inLet && (expr.Op == Plus || expr.Op == Minus) && arithmStartsWithSign(expr.X) {
 				// "- -x" must not become the pre-decrement "--x"
 				p.space()
 			}
@@ -1505,7 +1509,9 @@ func (p *Printer) command(cmd Command, redirs []*Redirect) (startRedirs int) {
 		p.spacedString("let", cmd.Pos())
 		for _, n := range cmd.Exprs {
 			p.space()
+			p.inLet = true
 			p.arithmExpr(n, true, false)
+			p.inLet = false
 		}
 	case *TestDecl:
 		p.spacedString("@test", cmd.Pos())
